@@ -284,7 +284,11 @@ pub fn run_rdoc(l: &[Sexp]) -> (String, String) {
             Ok(s) => to_hex(s.as_bytes()),
             Err(_) => "PANIC".to_string(),
         };
-        Ok(format!("RDOC\t{}\t{}\t{}", html, roff, console))
+        let md = match std::panic::catch_unwind(std::panic::AssertUnwindSafe(|| doc.render_markdown(full))) {
+            Ok(s) => to_hex(s.as_bytes()),
+            Err(_) => "PANIC".to_string(),
+        };
+        Ok(format!("RDOC\t{}\t{}\t{}\t{}", html, roff, console, md))
     };
     match body() {
         Ok(s) => (id, s),
